@@ -248,13 +248,20 @@ Definition delta_lower (q : query) (m : mark) (n : N) (b : list event) : N :=
   let fb := show_filter q m b in
   if lenN b <=? n then lenN fb else n - (lenN b - lenN fb).
 
-(** the delta batches: SINCE from the catalog entry's mark [cat], guard timestamp from the store's mark *)
+(** which mark the next SHOW uses (read from the Rust text): the guard timestamp and the watermark filter come from
+    the store's manifest ([mat_delta_mark_from_store]: refresher.rs [sink.high_water_mark()]), the SINCE of the delta
+    query from the catalog entry ([mat_delta_since_from_catalog]: orchestrator.rs [delta_command(entry.high_water_mark)]) *)
+Definition filter_mark (fs : list (list event)) (cat : mark) : mark :=
+  if mat_delta_mark_from_store then frames_mark fs else cat.
+Definition since_mark (fs : list (list event)) (cat : mark) : mark :=
+  if mat_delta_since_from_catalog then cat else frames_mark fs.
+
 Definition delta_batches (q : query) (fs : list (list event)) (cat : mark) (l : layout) : list (list event) :=
-  sources (Some (fst (frames_mark fs))) (delta_query q cat) l.
+  sources (Some (fst (filter_mark fs cat))) (delta_query q (since_mark fs cat)) l.
 
 Definition show_frames (q : query) (fs : list (list event)) (cat : mark) (l : layout) (ch : choice)
   : option (list (list event)) :=
-  let m := frames_mark fs in
+  let m := filter_mark fs cat in
   let bs := delta_batches q fs cat l in
   match q_limit q with
   | None => let fbs := map (show_filter q m) bs in
@@ -279,7 +286,7 @@ Definition rest_of (fbs : list (list event)) (ord : list N) : list (list event) 
            (seqN (length fbs)).
 Definition show_fail_frames (q : query) (fs : list (list event)) (cat : mark) (l : layout) (ch : choice)
   : option (list (list event) * list (list event)) :=
-  let m := frames_mark fs in
+  let m := filter_mark fs cat in
   let bs := delta_batches q fs cat l in
   match q_limit q with
   | None => let fbs := map (show_filter q m) bs in
@@ -380,8 +387,11 @@ Definition step (st : state) (o : op) : state * obs :=
           | None => (st, ObsBadChoice)
           | Some (ap, _) =>
               let fs' := n_frames en ++ ap in
-              (mkState (st_layout st) (update name (mkEntry (n_q en) fs' (n_cat en)) (st_entries st)),
-               ObsShowFailed ap (frames_mark fs') (n_cat en))
+              (* the catalog entry is rewritten after the response ([mat_catalog_after_response]): not at all here *)
+              let cat' := if mat_catalog_after_response then n_cat en
+                          else cat_after (n_cat en) (frames_mark (n_frames en)) (frames_mark fs') in
+              (mkState (st_layout st) (update name (mkEntry (n_q en) fs' cat') (st_entries st)),
+               ObsShowFailed ap (frames_mark fs') cat')
           end
       end
   end.
